@@ -1,7 +1,9 @@
 """usage: runner.py <ID> [args]  -> imports checks/<id>.py and runs its main under the top-level safety net (vlib/common.guarded)"""
-import sys, importlib, traceback
+import sys, os, importlib
 from vlib.common import guarded
 
+# the checks used to run as scripts: keep their directory first on sys.path (sibling helper modules imported by bare name)
+sys.path[0] = os.path.join(os.path.dirname(os.path.dirname(os.path.abspath(__file__))), "checks")
 pid = sys.argv[1].upper() if len(sys.argv) > 1 else "?"
 
 
